@@ -5,12 +5,27 @@ use crate::codec::Codec;
 use crate::seq::SeqSlice;
 use crate::Bs;
 
+/// Bit offset of symbol position `i`. A position whose bit offset does not fit a `usize`
+/// is out of range for every sequence, so it panics like any other out-of-range index
+/// instead of wrapping around (in release builds) to a position inside the sequence.
+#[inline]
+fn bit_offset<A: Codec>(i: usize) -> usize {
+    i.checked_mul(A::BITS as usize)
+        .expect("sequence index out of range")
+}
+
+/// Bit offset just past symbol position `i`, for inclusive upper bounds
+#[inline]
+fn bit_offset_after<A: Codec>(i: usize) -> usize {
+    bit_offset::<A>(i.checked_add(1).expect("sequence index out of range"))
+}
+
 impl<A: Codec> Index<Range<usize>> for SeqSlice<A> {
     type Output = SeqSlice<A>;
 
     fn index(&self, range: Range<usize>) -> &Self::Output {
-        let s = range.start * A::BITS as usize;
-        let e = range.end * A::BITS as usize;
+        let s = bit_offset::<A>(range.start);
+        let e = bit_offset::<A>(range.end);
         let bs: *const Bs = ptr::from_ref::<Bs>(&self.bs[s..e]);
         unsafe { &*(bs as *const SeqSlice<A>) }
     }
@@ -20,7 +35,7 @@ impl<A: Codec> Index<RangeTo<usize>> for SeqSlice<A> {
     type Output = SeqSlice<A>;
 
     fn index(&self, range: RangeTo<usize>) -> &Self::Output {
-        let e = range.end * A::BITS as usize;
+        let e = bit_offset::<A>(range.end);
         let bs: *const Bs = ptr::from_ref::<Bs>(&self.bs[..e]);
         unsafe { &*(bs as *const SeqSlice<A>) }
     }
@@ -30,7 +45,7 @@ impl<A: Codec> Index<RangeToInclusive<usize>> for SeqSlice<A> {
     type Output = SeqSlice<A>;
 
     fn index(&self, range: RangeToInclusive<usize>) -> &Self::Output {
-        let e = (range.end + 1) * A::BITS as usize;
+        let e = bit_offset_after::<A>(range.end);
         let bs: *const Bs = ptr::from_ref::<Bs>(&self.bs[..e]);
         unsafe { &*(bs as *const SeqSlice<A>) }
     }
@@ -40,8 +55,8 @@ impl<A: Codec> Index<RangeInclusive<usize>> for SeqSlice<A> {
     type Output = SeqSlice<A>;
 
     fn index(&self, range: RangeInclusive<usize>) -> &Self::Output {
-        let s = range.start() * A::BITS as usize;
-        let e = (range.end() + 1) * A::BITS as usize;
+        let s = bit_offset::<A>(*range.start());
+        let e = bit_offset_after::<A>(*range.end());
 
         let bs: *const Bs = ptr::from_ref::<Bs>(&self.bs[s..e]);
         unsafe { &*(bs as *const SeqSlice<A>) }
@@ -52,7 +67,7 @@ impl<A: Codec> Index<RangeFrom<usize>> for SeqSlice<A> {
     type Output = SeqSlice<A>;
 
     fn index(&self, range: RangeFrom<usize>) -> &Self::Output {
-        let s = range.start * A::BITS as usize;
+        let s = bit_offset::<A>(range.start);
         let bs: *const Bs = ptr::from_ref::<Bs>(&self.bs[s..]);
         unsafe { &*(bs as *const SeqSlice<A>) }
     }
@@ -71,8 +86,8 @@ impl<A: Codec> Index<usize> for SeqSlice<A> {
     type Output = SeqSlice<A>;
 
     fn index(&self, i: usize) -> &Self::Output {
-        let s = i * A::BITS as usize;
-        let e = s + A::BITS as usize;
+        let s = bit_offset::<A>(i);
+        let e = bit_offset_after::<A>(i);
         let bs: *const Bs = ptr::from_ref::<Bs>(&self.bs[s..e]);
         unsafe { &*(bs as *const SeqSlice<A>) }
     }
